@@ -341,6 +341,57 @@ namespace pure {
         return p;
     }
 
+    // safe_cut( count >= width ) on a fresh number_splitter: "if count is more than the rest, only the rest is returned", i.e. the whole
+    // number; the splitter is then at eos. cut() itself cannot take the full width (is_correct), so safe_cut has to handle it. Every case
+    // runs in a forked child in every build: a libcds assert or a sanitizer report there becomes a finding instead of ending the run.
+    template <class Int>
+    void number_whole_safe_cut( std::string const& name )
+    {
+        typedef cds::algo::number_splitter<Int> S;
+        typedef typename std::make_unsigned<Int>::type UInt;
+        unsigned const nbits = unsigned( sizeof( Int ) * 8 );
+        PropStats& ps = prop( "C25" );
+        const unsigned widths[] = { nbits, nbits + 1, nbits + 8, 2 * nbits };
+        const uint64_t pats[] = { 0x5A5A5A5AA5A5A5A5ull, ~0ull, 0x8000000000000001ull };
+        for ( unsigned w : widths ) {
+            for ( uint64_t pat : pats ) {
+                fflush( stdout ); fflush( stderr );
+                int fd[2];
+                if ( pipe( fd ) != 0 ) harness_failure( "pipe() failed" );
+                pid_t pid = fork();
+                if ( pid < 0 ) harness_failure( "fork() failed" );
+                if ( pid == 0 ) {
+                    close( fd[0] ); dup2( fd[1], 2 ); close( fd[1] );
+                    volatile Int v = Int( pat );
+                    S s( v );
+                    UInt got = UInt( call_safe_cut( s, w ));
+                    bool ok = got == UInt( Int( pat )) && s.eos() && s.rest_count() == 0 && s.bit_offset() == nbits;
+                    if ( !ok ) fprintf( stderr, "returned %llx, eos=%d, bit_offset=%u\n", ( unsigned long long ) got, int( s.eos()), unsigned( s.bit_offset()));
+                    _exit( ok ? 0 : 3 );
+                }
+                close( fd[1] );
+                std::string out; char buf[2048]; ssize_t n;
+                while ( out.size() < 6000 && ( n = read( fd[0], buf, sizeof buf )) > 0 ) out.append( buf, size_t( n ));
+                if ( out.size() >= 6000 ) kill( pid, SIGKILL );
+                close( fd[0] );
+                int st = 0; waitpid( pid, &st, 0 );
+                ps.evaluations.fetch_add( 1 ); ps.operations.fetch_add( 1 ); ps.nontrivial.fetch_add( 1 );
+                ps.add_fp( mix64( std::hash<std::string>()( name )) ^ mix64( w * 131 + ( pat & 0xff )));
+                if ( WIFEXITED( st ) && WEXITSTATUS( st ) == 0 ) continue;
+                size_t p = out.find( "runtime error: " );
+                if ( p == std::string::npos ) p = out.find( "Assertion" );
+                if ( p == std::string::npos ) p = 0;
+                size_t e = out.find( '\n', p );
+                std::string first = out.substr( p, ( e == std::string::npos ? out.size() : e ) - p ).substr( 0, 300 );
+                report( "C25", "number_splitter:safe_cut-whole-number",
+                        name + "::safe_cut(" + num( w ) + ") on a fresh splitter over " + hxs( uint64_t( UInt( Int( pat )))) + " must return the whole number and reach eos; "
+                        + (( WIFEXITED( st ) && WEXITSTATUS( st ) == 3 ) ? "it " + first : "the call did not survive: " + first ),
+                        "{\"splitter\":" + jstr( name ) + ",\"width\":" + num( w ) + ",\"value\":" + hx( uint64_t( UInt( Int( pat )))) + ",\"child\":" + jstr( first ) + "}" );
+                return;
+            }
+        }
+    }
+
     inline void gen8( uint8_t* raw, uint64_t i ) { raw[0] = uint8_t( i ); }
     inline void gen16_all( uint8_t* raw, uint64_t i ) { raw[0] = uint8_t( i ); raw[1] = uint8_t( i >> 8 ); }
     struct Gen16Sample {
@@ -416,6 +467,14 @@ namespace pure {
         split_variant< number_splitter<unsigned long>, unsigned long >( "C25.number_splitter<ulong>", &number_policy<unsigned long>, 0 );
         split_variant< number_splitter<long long>, long long >( "C25.number_splitter<longlong>", &number_policy<long long>, 0 );
         split_variant< number_splitter<unsigned long long>, unsigned long long >( "C25.number_splitter<ulonglong>", &number_policy<unsigned long long>, 0 );
+        if ( begin_variant( "C25.number_splitter.safe_cut-whole-number" )) {
+            number_whole_safe_cut<uint8_t>( "number_splitter<u8>" );
+            number_whole_safe_cut<short>( "number_splitter<short>" );
+            number_whole_safe_cut<unsigned>( "number_splitter<unsigned>" );
+            number_whole_safe_cut<int>( "number_splitter<int>" );
+            number_whole_safe_cut<unsigned long long>( "number_splitter<ulonglong>" );
+            number_whole_safe_cut<long long>( "number_splitter<longlong>" );
+        }
     }
 } // namespace pure
 #endif
